@@ -153,3 +153,63 @@ func (e *Engine) aliasesFor(name string, fn *ssa.Function) map[string]string {
 	e.aliasMemo[name] = out
 	return out
 }
+
+func sigOf(n fnNames) string {
+	var b []byte
+	for _, v := range n.Vars {
+		b = append(b, (v.Type + ";")...)
+	}
+	b = append(b, '|')
+	for _, v := range n.Free {
+		b = append(b, (v.Type + ";")...)
+	}
+	return string(b)
+}
+
+// remapClosureContracts: function literals are numbered F$1, F$2, ... in source order, so adding
+// or removing one renumbers its later siblings. A contract written for F$k is re-attached to the
+// sibling whose declared variables and captured variables (types, in order) match what F$k looked
+// like when the contract was written, if the literal now at F$k does not match and exactly one
+// sibling does.
+func (e *Engine) remapClosureContracts() {
+	moved := map[string]string{}
+	for name, fc := range e.cs.Funcs {
+		i := -1
+		for k := 0; k < len(name); k++ {
+			if name[k] == '$' {
+				i = k
+				break
+			}
+		}
+		if i < 0 || fc.Extern {
+			continue
+		}
+		ref, ok := e.refNames[name]
+		if !ok {
+			continue
+		}
+		want := sigOf(ref)
+		if cur := e.funcs[name]; cur != nil && sigOf(e.declNames(cur)) == want {
+			continue
+		}
+		base := name[:i]
+		var cands []string
+		for n, fn := range e.funcs {
+			if len(n) > len(base) && n[:len(base)+1] == base+"$" && e.cs.Funcs[n] == nil && sigOf(e.declNames(fn)) == want {
+				cands = append(cands, n)
+			}
+		}
+		if len(cands) == 1 {
+			moved[name] = cands[0]
+		}
+	}
+	for from, to := range moved {
+		fc := e.cs.Funcs[from]
+		delete(e.cs.Funcs, from)
+		fc.Name = to
+		e.cs.Funcs[to] = fc
+		if rn, ok := e.refNames[from]; ok {
+			e.refNames[to] = rn
+		}
+	}
+}
